@@ -27,12 +27,17 @@ func c03Glob(line string) (negated bool, glob string, ok bool) {
 	if p == "" {
 		return false, "", false
 	}
-	// "**" must be a whole segment
+	// "**" must be a whole segment - or end the pattern glued to a name ("debug**": the name
+	// followed by anything)
 	segs := strings.Split(p, "/")
-	for _, s := range segs {
-		if strings.Contains(s, "**") && s != "**" {
-			return false, "", false
+	for i, s := range segs {
+		if !strings.Contains(s, "**") || s == "**" {
+			continue
 		}
+		if i == len(segs)-1 && strings.HasSuffix(s, "**") && !strings.Contains(s[:len(s)-2], "*") {
+			continue
+		}
+		return false, "", false
 	}
 	return negated, p, true
 }
